@@ -263,3 +263,143 @@ def mutInversion (d : Disc) (individual : Nat) (indexOne indexTwo : Nat) : M α 
     return individual
 
 end CrossMutBuf
+
+/-!
+## Histories of calls in one process (`OpHistory`)
+
+A Python process in which DEAP's operators are called again and again, on objects the caller keeps,
+reuses and edits between the calls.  The state of the machine is NOTHING BUT the heaps of sequence
+objects (permutation individuals over `Nat`; integer-coded individuals and the `low`/`up` bound
+sequences of `mutUniformInt` over `Int`; `strategy` attributes): there is no component for anything
+a module of the library could remember between two calls.  An event is
+
+* a call of an operator on objects of the heap (its draws are part of the event).  A call that raises
+  leaves the heap as the exception left it (the monad `Buffer.M` keeps the heap on `raise`); the next
+  event starts from that heap;
+* `refused`: a call that raised before it touched any object (`randint(1, 0)` for a too-short individual);
+* the caller storing into one of its objects (`x[i] = v`, `x[:] = v`, `low[:] = …`) or creating one.
+
+`mutUniformInt` receives its bounds BY REFERENCE (`BRef.obj`): what it reads is the contents of the
+bound object at the time of the call.
+-/
+namespace OpHistory
+open Buffer
+open CrossMut (Bound PyNot)
+
+structure State where
+  perm : Heap Nat
+  gene : Heap Int
+  strat : Heap Int
+
+/-- how a call ended: it returned the objects `ret`, or it raised -/
+inductive Outcome where
+  | ok (ret : List Nat)
+  | raise (e : Err)
+deriving DecidableEq, Repr
+
+/-- the `low` / `up` argument of `mutUniformInt`: a number, or a sequence OBJECT of the caller -/
+inductive BRef where
+  | scalar (x : Int)
+  | obj (id : Nat)
+deriving DecidableEq, Repr
+
+/-- the bound a reference denotes NOW -/
+def BRef.now (st : State) : BRef → Bound
+  | .scalar x => .scalar x
+  | .obj id => .seq (st.gene.cell id)
+
+/-- the operators that exist for every gene type -/
+inductive Gen where
+  | onepoint (i1 i2 cx : Nat)
+  | twopoint (i1 i2 c1 c2 : Nat)
+  | twopoints (i1 i2 c1 c2 : Nat)
+  | messy (i1 i2 c1 c2 : Nat)
+  | uniform (i1 i2 : Nat) (ds : List Bool)
+  | shuffle (i : Nat) (ds : List (Option Nat))
+  | flip (i : Nat) (ds : List Bool)
+  | inversion (i i1 i2 : Nat)
+
+def pair {α : Type} (m : M α (Nat × Nat)) : M α (List Nat) := fun h =>
+  match m h with
+  | .ok r h' => .ok [r.1, r.2] h'
+  | .raise e h' => .raise e h'
+
+def single {α : Type} (m : M α Nat) : M α (List Nat) := fun h =>
+  match m h with
+  | .ok r h' => .ok [r] h'
+  | .raise e h' => .raise e h'
+
+def Gen.run {α : Type} [PyNot α] (d : Disc) : Gen → M α (List Nat)
+  | .onepoint i1 i2 cx => pair (CrossMutBuf.cxOnePoint d i1 i2 cx)
+  | .twopoint i1 i2 c1 c2 => pair (CrossMutBuf.cxTwoPoint d i1 i2 c1 c2)
+  | .twopoints i1 i2 c1 c2 => pair (CrossMutBuf.cxTwoPoints d i1 i2 c1 c2)
+  | .messy i1 i2 c1 c2 => pair (CrossMutBuf.cxMessyOnePoint d i1 i2 c1 c2)
+  | .uniform i1 i2 ds => pair (CrossMutBuf.cxUniform d i1 i2 ds)
+  | .shuffle i ds => single (CrossMutBuf.mutShuffleIndexes d i ds)
+  | .flip i ds => single (CrossMutBuf.mutFlipBit d i ds)
+  | .inversion i i1 i2 => single (CrossMutBuf.mutInversion d i i1 i2)
+
+inductive Event where
+  | permOp (d : Disc) (g : Gen)
+  | geneOp (d : Disc) (g : Gen)
+  | pmx (d : Disc) (i1 i2 c1 c2 : Nat)
+  | upmx (d : Disc) (i1 i2 : Nat) (ds : List Bool)
+  | ox (d : Disc) (i1 i2 a b : Nat)
+  | uniformint (d : Disc) (i : Nat) (low up : BRef) (ds : List (Option Int))
+  | es (dg ds : Disc) (i1 i2 s1 s2 p1 p2 : Nat)
+  | ess (dg ds : Disc) (i1 i2 s1 s2 p1 p2 : Nat)
+  | refused (e : Err)
+  | storeP (id : Nat) (v : List Nat)
+  | storeG (id : Nat) (v : List Int)
+  | storeS (id : Nat) (v : List Int)
+  | newP (v : List Nat)
+  | newG (v : List Int)
+  | newS (v : List Int)
+
+def onPerm (m : M Nat (List Nat)) (st : State) : Outcome × State :=
+  match m st.perm with
+  | .ok v h => (.ok v, { st with perm := h })
+  | .raise e h => (.raise e, { st with perm := h })
+
+def onGene (m : M Int (List Nat)) (st : State) : Outcome × State :=
+  match m st.gene with
+  | .ok v h => (.ok v, { st with gene := h })
+  | .raise e h => (.raise e, { st with gene := h })
+
+def onES (m : Heap Int × Heap Int → Res (Heap Int × Heap Int) (Nat × Nat)) (st : State) : Outcome × State :=
+  match m (st.gene, st.strat) with
+  | .ok v h => (.ok [v.1, v.2], { st with gene := h.1, strat := h.2 })
+  | .raise e h => (.raise e, { st with gene := h.1, strat := h.2 })
+
+/-- one event: the outcome the caller sees and the heaps afterwards -/
+def step (st : State) : Event → Outcome × State
+  | .permOp d g => onPerm (g.run d) st
+  | .geneOp d g => onGene (g.run d) st
+  | .pmx d i1 i2 c1 c2 => onPerm (pair (CrossMutBuf.cxPartialyMatched d i1 i2 c1 c2)) st
+  | .upmx d i1 i2 ds => onPerm (pair (CrossMutBuf.cxUniformPartialyMatched d i1 i2 ds)) st
+  | .ox d i1 i2 a b => onPerm (pair (CrossMutBuf.cxOrdered d i1 i2 a b)) st
+  | .uniformint d i low up ds => onGene (single (CrossMutBuf.mutUniformInt d i (low.now st) (up.now st) ds)) st
+  | .es dg ds i1 i2 s1 s2 p1 p2 => onES (CrossMutBuf.cxESTwoPoint dg ds i1 i2 s1 s2 p1 p2) st
+  | .ess dg ds i1 i2 s1 s2 p1 p2 => onES (CrossMutBuf.cxESTwoPoints dg ds i1 i2 s1 s2 p1 p2) st
+  | .refused e => (.raise e, st)
+  | .storeP id v => (.ok [], { st with perm := st.perm.write id v })
+  | .storeG id v => (.ok [], { st with gene := st.gene.write id v })
+  | .storeS id v => (.ok [], { st with strat := st.strat.write id v })
+  | .newP v => (.ok [st.perm.next], { st with perm := st.perm.alloc v })
+  | .newG v => (.ok [st.gene.next], { st with gene := st.gene.alloc v })
+  | .newS v => (.ok [st.strat.next], { st with strat := st.strat.alloc v })
+
+/-- the heaps after a history -/
+def run (hist : List Event) (st : State) : State := hist.foldl (fun s e => (step s e).2) st
+
+/-- the outcomes of a history, event by event -/
+def trace : List Event → State → List (Outcome × State)
+  | [], _ => []
+  | e :: es, st => let r := step st e; r :: trace es r.2
+
+def emptyHeap {α : Type} : Heap α := { cell := fun _ => [], next := 0 }
+
+/-- a process that holds no object yet -/
+def init : State := { perm := emptyHeap, gene := emptyHeap, strat := emptyHeap }
+
+end OpHistory
